@@ -318,3 +318,19 @@ def reexecute(rec, m, program, blockscan=False):
         if rec.failed:
             return
         rec.state(k)
+
+
+def run_skip(rec, m, nnext, target):
+    """A short program: nnext steps from the start, then skip_to(target)."""
+    k0 = rec.new(m)
+    if rec.failed:
+        return
+    st = {"live": [k0], "replaced": set(), "nimpl": len(rec.notimpl)}
+    exec_op(rec, st, "start", k0, False, False)
+    for _ in range(nnext):
+        if not rec.failed and k0 in st["live"] and rec.objs[k0].is_active():
+            exec_op(rec, st, "next", k0, None, False)
+    if not rec.failed and k0 in st["live"] and rec.objs[k0].is_active():
+        exec_op(rec, st, "skip_to", k0, int(target), False)
+        if not rec.failed and k0 in st["live"] and rec.objs[k0].is_active():
+            exec_op(rec, st, "next", k0, None, False)
